@@ -17,7 +17,8 @@ out = ["# Seeded changes (sub-agent experiment)", "",
        "(what the change needs in order to manifest, the test-suite result on the patched tree, which of my checks fired) and",
        "`detection.json` (the raw check summary). Sub-agents saw only the property text and a scratch worktree, nothing of /verif.",
        "Rounds: 1 = C01-C06 (mutants 1-2), 2 = C07-C19 (mutants 1-2), 3 = all properties (mutants 3-4; agents were told what rounds 1-2",
-       "had produced and asked for different code and triggers). `detected by` lists the checks (quick tier) that print a VIOLATION line",
+       "had produced and asked for different code and triggers), 4 = all properties (mutants 5-6), 5 = all properties (mutants 7-8; prompts from",
+       "tools/seed_prompts.py). `detected by` lists the checks (quick tier) that print a VIOLATION line",
        "with the patch applied, AFTER the strengthening recorded in DESIGN.md 11.6; a check listed after `+` in the notes is a",
        "neighbouring property's check that also (or instead) fires because the change lives in code that property owns.", "",
        "| property | # | files | change (abridged) | needs | tests on patched tree | detected by |", "|---|---|---|---|---|---|---|"]
